@@ -95,3 +95,34 @@ Proof. exact acts_clean_keep_content_sym. Qed.
 
 Check C08_own_step_keeps_content.
 Check C08_every_action_of_a_build_keeps_content.
+
+
+(* ---- every step of every interleaving (Model/Fine.v) ----
+   A step of a rule thread other than its final one (which runs the user's command) never loses a content
+   that was held by a planned target or a cache entry, whatever the other rule threads did before; and a
+   restore (cache -> target rename) is only ever attempted into an ABSENT path, so it cannot overwrite. *)
+From Ruler Require Import Inv Ideal BuildSpec InvFacts C01Hist C01Facts C11Facts C02Sym Sched Fine FineFacts FineCorStep FineCor FineStatus FineCorFinal FineCorExamples.
+Local Open Scope nat_scope.
+
+Theorem C08_every_step_of_every_interleaving_keeps_content : forall (w : world sym) rp goal w1 tbl pack hists blobs t' ch k st',
+  disk_inv sym_eqb SContent w -> hist_sound_sym w ->
+  init_dir sym w = Ok (w1, tbl) -> get_nodes sym w1 rp goal = Ok pack -> Forall det_node (p_nodes pack) ->
+  read_histories sym sym_eqb SRule w1 (p_nodes pack) = Some hists ->
+  take_blobs sym SContent tbl (worker_paths pack) = (blobs, t') ->
+  let st := frun_sym pack blobs hists ch (fn_start_sym w1 t' pack) in
+  fstep_sym pack blobs hists st k = Some st' ->
+  (forall ro, phase_of sym st k <> WFinish ro) ->
+  forall paths c, incl (plan_targets pack) paths ->
+    protected_content sym_eqb paths (fn_world st) c -> protected_content sym_eqb paths (fn_world st') c.
+Proof. exact fine_step_keeps_content_sym. Qed.
+Print Assumptions C08_every_step_of_every_interleaving_keeps_content.
+
+Theorem C08_restore_only_into_absent_path : forall (w1 : world sym) rp goal tbl pack hists blobs t' ch j nd done i p,
+  get_nodes sym w1 rp goal = Ok pack -> Forall det_node (p_nodes pack) ->
+  take_blobs sym SContent tbl (worker_paths pack) = (blobs, t') ->
+  let st := frun_sym pack blobs hists ch (fn_start_sym w1 t' pack) in
+  nth_error (p_nodes pack) j = Some nd ->
+  phase_of sym st (length (p_leaves pack) + j) = WCheck done i \/ phase_of sym st (length (p_leaves pack) + j) = WRename done i ->
+  nth_error (n_targets nd) i = Some p -> fget (fn_world st) p = None.
+Proof. exact fine_restore_into_absent_sym. Qed.
+Print Assumptions C08_restore_only_into_absent_path.
